@@ -31,14 +31,21 @@ PNG_COL = [({}, '#000', '#fff'), (dict(dark='darkblue'), 'darkblue', '#fff'), (d
            (dict(dark='black', light='white'), '#000', '#fff'), (dict(dark='#FFFFFF', light=None), '#fff', None),
            # the writer picks the first CSS colours as stand-in for "transparent": the visible colour may be exactly one of them
            (dict(dark='aliceblue', light=None), 'aliceblue', None), (dict(dark=None, light='#f0f8ff'), None, '#f0f8ff'),
-           (dict(dark='antiquewhite', light=None), 'antiquewhite', None), (dict(dark=(240, 248, 255, 128), light=None), (240, 248, 255, 128), None)]
+           (dict(dark='antiquewhite', light=None), 'antiquewhite', None), (dict(dark=(240, 248, 255, 128), light=None), (240, 248, 255, 128), None),
+           # float alpha values whose exact 0..255 image is not an integer (nearest-integer conversion expected)
+           (dict(dark=(0, 0, 0, 0.1)), (0, 0, 0, 0.1), '#fff'), (dict(dark=(9, 8, 7, 0.75), light=(250, 251, 252, 0.95)), (9, 8, 7, 0.75), (250, 251, 252, 0.95)),
+           (dict(dark=(1, 2, 3, 0.3)), (1, 2, 3, 0.3), '#fff')]
+GREY_ALIASES = [('gray', 'grey'), ('darkgray', 'darkgrey'), ('dimgray', 'dimgrey'), ('lightgray', 'lightgrey'), ('slategray', 'slategrey'),
+                ('darkslategray', 'darkslategrey'), ('lightslategray', 'lightslategrey'), ('aqua', 'cyan'), ('fuchsia', 'magenta')]
 COLORS = {
     'png': PNG_COL,
     'pbm': [({}, '#000', '#fff'), (dict(plain=True), '#000', '#fff')],
     'pam': [({}, '#000', '#fff'), (dict(light=None), '#000', None), (dict(dark='red'), 'red', '#fff'), (dict(dark='red', light=None), 'red', None),
             (dict(dark='white', light='black'), 'white', 'black'), (dict(dark='#123', light='#fed'), '#123', '#fed'),
             (dict(dark='white', light=None), 'white', None), (dict(dark='black', light='#fff'), '#000', '#fff'),
-            (dict(dark=(0, 0, 0), light=(255, 255, 255)), '#000', '#fff'), (dict(dark='#fff', light='#fff'), '#fff', '#fff')],
+            (dict(dark=(0, 0, 0), light=(255, 255, 255)), '#000', '#fff'), (dict(dark='#fff', light='#fff'), '#fff', '#fff'),
+            (dict(dark='#123', light=None), '#123', None), (dict(dark=(10, 20, 30), light=None), (10, 20, 30), None), (dict(dark='gray', light=None), 'gray', None),
+            (dict(dark=(10, 20, 30), light=(40, 50, 60)), (10, 20, 30), (40, 50, 60))],
     'ppm': [({}, '#000', '#fff'), (dict(dark='red', light='tan'), 'red', 'tan'), (dict(dark='white', light='black'), 'white', 'black')],
     'xbm': [({}, '#000', '#fff'), (dict(name='qr_code'), '#000', '#fff')],
     'xpm': [({}, '#000', '#fff'), (dict(dark='red', light=None), 'red', None), (dict(dark=None), None, '#fff'),
@@ -62,6 +69,7 @@ def gen_cases(tier):
         for kind in COLORS:
             yield ('fmt', v, kind)
         yield ('text', v)
+    yield ('alias',)
 
 
 def module_at(m, size, s, b, x, y):
@@ -238,8 +246,28 @@ def text_outputs(v, acc):
                               % (name, v, border, len(got), len(got[0]) if got else 0, n, n), case)
 
 
+def alias_case(acc):
+    """CSS colour keywords that are defined as synonyms must paint identical files (covers table rows the alphabet does not name)"""
+    qr = symbol('M2')
+    for a, b in GREY_ALIASES:
+        for kind in ('png', 'ppm', 'xpm', 'pam'):
+            outs = []
+            for name in (a, b, a.upper()):
+                o = io.BytesIO() if kind in READ else io.StringIO()
+                try:
+                    qr.save(o, kind=kind, dark=name, light='#fedcba')
+                    outs.append(o.getvalue())
+                except Exception as e:
+                    outs.append('exc:' + C.exc_name(e))
+            acc.eval(('alias', a, b, kind), nontrivial=True, outcome=len(set(outs)) == 1, state=('alias', kind))
+            if len(set(outs)) != 1:
+                acc.violation('colour-synonyms/%s' % kind, '%s: dark=%r, %r and %r do not give the same file' % (kind, a, b, a.upper()), ('alias',))
+
+
 def run_case(case, acc):
     kind = case[0]
+    if kind == 'alias':
+        return alias_case(acc)
     if kind == 'fmt':
         _, v, fmt = case
         size = T.size_of(v)
